@@ -1464,6 +1464,58 @@ func (w *relayWorld) template(k int, ports []int) {
 		w.evAllocateX(c3, w.newTid(), ok(c3), attrSpec{2, 17}, attrSpec{}, attrSpec{}, false, ports[3], false, allocExtra{rtoken: tok}) // reserved port taken
 		w.probeBurst(c2)
 		w.evAllocateX(c3, w.newTid(), ok(c3), attrSpec{2, 17}, attrSpec{}, attrSpec{}, false, ports[3], false, allocExtra{evenPort: 1}) // odd port offered
+	case 10: // a channel expires while its peer keeps sending and the permission stays; the number then goes to another peer
+		alloc(ci, attrSpec{}, ports[1])
+		pi := rng.Intn(3)
+		p1 := peerSpec{addr: w.peers[pi]}
+		q := peerSpec{addr: w.peers[(pi+1)%3]}
+		w.evChannelBind(ci, w.newTid(), ok(ci), attrSpec{2, num}, &p1)
+		w.evPeer(ports[1], false, p1.addr)
+		// across the channel's expiry, keeping the allocation and the permission alive
+		for left := ct + eps(); left > 0; {
+			d := pt / 2
+			if at/2 < d {
+				d = at / 2
+			}
+			if left < d {
+				d = left
+			}
+			w.evTick(d)
+			left -= d
+			w.evRefresh(ci, w.newTid(), ok(ci), attrSpec{}, attrSpec{})
+			w.evCreatePerm(ci, w.newTid(), ok(ci), []peerSpec{p1})
+			if rng.Intn(3) == 0 {
+				w.evPeer(ports[1], false, p1.addr)
+			}
+		}
+		w.evPeer(ports[1], false, p1.addr)
+		if rng.Bool() {
+			w.evChannelBind(ci, w.newTid(), ok(ci), attrSpec{2, num}, &q)
+			w.evPeer(ports[1], false, p1.addr)
+			w.evPeer(ports[1], false, q.addr)
+			w.evChanData(ci, num)
+		}
+	case 11: // a ChannelBind that is rejected (number taken / peer already bound) must authorise nothing and refresh nothing
+		alloc(ci, attrSpec{}, ports[0])
+		p1 := peerSpec{addr: w.peers[verifsim.Pick(rng, []int{0, 2})]}
+		q := peerSpec{addr: w.peers[verifsim.Pick(rng, []int{1, 4})]} // another IP, never given a permission
+		w.evChannelBind(ci, w.newTid(), ok(ci), attrSpec{2, num}, &p1)
+		d := pt/4 + time.Duration(rng.Intn(int(pt/4)))
+		w.evTick(d)
+		w.evChannelBind(ci, w.newTid(), ok(ci), attrSpec{2, num}, &q) // 400: the number belongs to p1
+		w.evSend(ci, &q, true)
+		w.evPeer(ports[0], false, q.addr)
+		w.evChannelBind(ci, w.newTid(), ok(ci), attrSpec{2, num + 1}, &p1) // 400: p1 is on another number
+		// p1's permission dates from the first ChannelBind, not from the rejected one
+		if pt+eps() < ct && pt+eps() < at {
+			w.evTick(pt - d - eps())
+			w.evSend(ci, &p1, true)
+			w.evPeer(ports[0], false, p1.addr)
+			w.evTick(2 * eps())
+			w.evSend(ci, &p1, true)
+			w.evPeer(ports[0], false, p1.addr)
+			w.evChanData(ci, num)
+		}
 	case 6: // retransmitted and conflicting Allocate, expiry, re-allocation on the same relay port
 		l := verifsim.Pick(rng, []int{2, 3, 5})
 		tid := w.newTid()
@@ -1571,8 +1623,10 @@ func runRelayHistory(t *testing.T, rng *verifsim.RNG, prop string, nEvents int) 
 		ports := []int{49152, 49153, 49154, 49155}
 		if prop == "C15" && rng.Chance(20) {
 			w.template(7, ports) // an allocation owning several channels and permissions ends, by each cause
+		} else if prop == "C08" && rng.Chance(15) {
+			w.template(10, ports) // a channel number changes hands while the old peer keeps sending
 		} else if rng.Chance(40) {
-			w.template(rng.Intn(10), ports)
+			w.template(rng.Intn(12), ports)
 		}
 		for i := 0; i < nEvents; i++ {
 			ci := rng.Intn(len(w.clients))
